@@ -3208,3 +3208,27 @@ Q(name="e2_bloom_period_index", props=["C14"], func=r"bloom_token_log\.rs:\d+:1:
   functions=["BloomTokenLog::check_and_insert::{closure#0} (Duration::as_nanos inlined)"], pre=bp_pre, post=bp_post,
   bounds="every time since the start of period 1 and every NON-ZERO token lifetime, both below 256 s at HALF-SECOND resolution (lifetimes of 2.5 s included; full nanosecond resolution leaves z3 with a 128-bit division by a symbolic divisor that it does not finish in 300 s): the period index the log computes is 0, 1, 2 or larger exactly when the token's expiry lies in the first, second, third or a later lifetime-long period - compared without division (D < L, L <= D < 2L, 2L <= D < 3L); a rounded index would look a replayed token up in the wrong filter",
   replay=("token_bloom_fractional_lifetime_native", lambda m: [dict(x=0)]))
+
+
+# ------------------------------------------------------------------ C01: an empty STREAM frame leaves no trace in the set of received ranges (an empty range would later hide real duplicates)
+def ai_post(c, p):
+    st = p.p.state
+    rp = p.called(r"RangeSet::replace$")
+    if not rp:
+        return "true"
+    a = rp[0][1][1]
+    if len(rp) != 1 or a[0] != "agg":
+        return "false"
+    snap = _Snap(st, rp[0][3]) if rp[0][3] is not None else st
+    k = _k(a[1])
+    lo, hi = c.ex.read_key(st if not k.startswith("*") else snap, k + ".0", BV64).t, c.ex.read_key(st if not k.startswith("*") else snap, k + ".1", BV64).t
+    # Range<u64> handed to the set: the frame's extent, and never empty
+    return and_("(bvult %s %s)" % (lo, hi), eq(lo, c.inp("_2", BV64)), eq(hi, "(bvadd %s %s)" % (c.inp("_2", BV64), c.inp("_3.1", BV64))))
+
+
+Q(name="e2_assembler_insert_no_empty_range", props=["C01", "C03"], func=r"assembler\.rs:\d+:1: \d+:15>::insert$",
+  allowed_panics=r".", check_stop=True, loop_is_stop=True, ignore_untranslatable=r".",
+  functions=["Assembler::insert (up to the first iteration of its duplicate-trimming loop)"],
+  pre=lambda c: and_(ule(c.inp("_2", BV64), bv(1 << 62)), ule(c.inp("_3.1", BV64), bv(1 << 32))), post=ai_post,
+  bounds="every offset below 2^62 and chunk length below 2^32, every assembler state: the range recorded as received in unordered mode (RangeSet::replace) is exactly the chunk's extent offset..offset+len and is never empty - a zero-length STREAM frame, which a peer may send anywhere, must not enter the set, where an empty range makes later overlapping data look new and deliver bytes a second time; the set operations themselves are opaque",
+  replay=("assembler_empty_frame_native", lambda m: [dict(x=0)]))
